@@ -179,6 +179,51 @@ theorem C01_parse_no_internal (T : Tables) (po : ParseOpts) (fold : Char → Lis
   rw [h] at this
   simp [okRes] at this
 
+/-! ### History independence (sessions)
+In the model every API call is a function of its own arguments, so a *session* — a sequence of
+calls made one after the other — is evaluated call by call and no call can see an earlier one.
+The statements below make that explicit; they are immediate in the pure model, and it is the
+*correspondence* (sessions of calls run in one interpreter state of the implementation, every
+result compared with the model's) that establishes the same for the code: shared mutable state
+between calls (e.g. a push-back stack shared by all tokenizers) shows up there as a disagreement,
+and as a property violation when a round trip inside the session is wrong. -/
+
+/-- one API call of a session -/
+inductive Call where
+  | parse (po : ParseOpts) (text : List Char)            -- `Keyvalues.parse(text, …)`
+  | serialise (so : SerOpts) (t : KV)                     -- `kv.serialise(…)`
+  | serialiseRoot (so : SerOpts) (ts : List KV)           -- `Keyvalues.root(*ts).serialise(…)`
+  | roundtrip (po : ParseOpts) (so : SerOpts) (t : KV)    -- `Keyvalues.parse(kv.serialise(…), …)`
+
+inductive CallResult where
+  | parsed (r : PResult)
+  | text (s : List Char)
+
+def evalCall (T : Tables) (fold : Char → List Char) : Call → CallResult
+  | .parse po text => .parsed (parse T po fold text)
+  | .serialise so t => .text (serialise T fullCfg so t)
+  | .serialiseRoot so ts => .text (serialiseRoot T fullCfg so ts)
+  | .roundtrip po so t => .parsed (parse T po fold (serialise T fullCfg so t))
+
+/-- a session: the calls are evaluated in order -/
+def runSession (T : Tables) (fold : Char → List Char) (cs : List Call) : List CallResult :=
+  cs.map (evalCall T fold)
+
+/-- **A call's result does not depend on the calls made before (or after) it.** -/
+theorem C01_history_indep (T : Tables) (fold : Char → List Char) (before after : List Call) (c : Call) :
+    (runSession T fold (before ++ c :: after))[before.length]? = some (evalCall T fold c) := by
+  simp [runSession]
+
+/-- **Round trip after any history**: whatever calls were made before (single-block parses that
+returned early, parses that ended in an error, other serialisations …), the round trip of an
+admissible tree is exact. -/
+theorem C01_roundtrip_any_history (T : Tables) (hE : escOK T = true) (hK : kvOK T = true)
+    (po : ParseOpts) (hesc : po.allowEscapes = true) (hsb : po.singleBlock = false)
+    (fold : Char → List Char) (so : SerOpts) (hind : isWs so.indent) (hst : isWs so.startIndent)
+    (t : KV) (ht : okKV po t = true) (before : List Call) :
+    (runSession T fold (before ++ [.roundtrip po so t])).getLast? = some (.parsed (.root [t])) := by
+  simp [runSession, evalCall, C01_roundtrip T hE hK po hesc hsb fold so hind hst t ht]
+
 /-- the error of a parse result, if it is one (decidable observation of `PResult`) -/
 def errOf : PResult → Option (PErr × Option Nat)
   | .err e l => some (e, l)
